@@ -217,7 +217,7 @@ impl Property for C09 {
         900
     }
     fn quick_cases(&self) -> u64 {
-        120_000
+        600_000
     }
     fn states_termination(&self) -> bool {
         true
